@@ -203,6 +203,97 @@ func runC12(c *Check) {
 	ruleSubmessagePresence(c, p)
 	ruleDecodersOverwrite(c, p)
 	ruleDecodersAcceptEmptyEncoding(c, p)
+	ruleCodecsArePure(c, p, "C12-R10")
+}
+
+// ruleCodecsArePure (C12-R10): the bytes of a value are a function of the value. The encoders,
+// decoders and hash functions of the wire types (and what they call inside the types package)
+// therefore touch no package-level container: a memo table, a pool, a registry filled at run
+// time. A cache of encoded parts keyed by less than the part itself (the marshalled public key
+// remembered per signer *address*) makes the bytes of one value depend on which values were
+// encoded before it in the same process.
+func ruleCodecsArePure(c *Check, p *Prog, rule string) {
+	c.Doc(rule, "CS: no function of the types package reachable from a wire type's ToProto / FromProto / MarshalBinary / UnmarshalBinary / Hash / DACommitment reads or writes a package-level container or synchronised object (sync.Map, sync.Pool, map, slice of non-bytes, pointer to a struct): encodings and hashes depend on the value alone, not on what the process encoded earlier.")
+	typesPkg := rootPath + "/types"
+	var roots []*ssa.Function
+	for _, fn := range p.Funcs {
+		pk := fnPkg(fn)
+		if pk == nil || pk.Pkg.Path() != typesPkg || fn.Parent() != nil || fn.Signature.Recv() == nil || fn.Blocks == nil {
+			continue
+		}
+		switch fn.Name() {
+		case "ToProto", "FromProto", "MarshalBinary", "UnmarshalBinary", "Hash", "DACommitment":
+			roots = append(roots, fn)
+		}
+	}
+	if len(roots) < 10 {
+		c.Unk(rule, "codec functions", "", "", fmt.Sprintf("anchor lost: only %d codec / hash methods found in the types package", len(roots)))
+		return
+	}
+	reach := map[*ssa.Function]bool{}
+	var walk func(fn *ssa.Function, d int)
+	walk = func(fn *ssa.Function, d int) {
+		if reach[fn] || d > 4 {
+			return
+		}
+		reach[fn] = true
+		for _, cal := range staticCalleesOf(p, fn) {
+			if pk := fnPkg(cal); pk != nil && pk.Pkg.Path() == typesPkg {
+				walk(cal, d+1)
+			}
+		}
+		for _, af := range fn.AnonFuncs {
+			walk(af, d)
+		}
+	}
+	for _, r := range roots {
+		walk(r, 0)
+	}
+	stateful := func(t types.Type) bool {
+		s := strings.TrimPrefix(t.String(), "*")
+		if strings.HasPrefix(s, "sync.") || strings.HasPrefix(s, "sync/atomic.") {
+			return true
+		}
+		switch u := t.Underlying().(type) {
+		case *types.Map, *types.Chan:
+			return true
+		case *types.Slice:
+			b, isB := u.Elem().Underlying().(*types.Basic)
+			return !(isB && b.Kind() == types.Uint8)
+		case *types.Pointer:
+			_, isSt := u.Elem().Underlying().(*types.Struct)
+			return isSt
+		}
+		return false
+	}
+	var bad []string
+	n := 0
+	for fn := range reach {
+		n++
+		for _, b := range fn.Blocks {
+			for _, in := range b.Instrs {
+				for _, op := range in.Operands(nil) {
+					if op == nil || *op == nil {
+						continue
+					}
+					gl, ok := (*op).(*ssa.Global)
+					if !ok || gl.Pkg == nil || !strings.HasPrefix(gl.Pkg.Pkg.Path(), rootPath) {
+						continue
+					}
+					if stateful(gl.Type().(*types.Pointer).Elem()) {
+						bad = append(bad, gl.Name()+" in "+fnShort(fn)+"@"+p.InstrPos(in))
+					}
+				}
+			}
+		}
+	}
+	sort.Strings(bad)
+	inst := "types ⟂ codecs and hashes touch no package-level container"
+	if len(bad) == 0 {
+		c.OK(rule, inst, "", "", fmt.Sprintf("%d functions reachable from %d codec / hash methods use no package-level container or synchronised object", n, len(roots)), true)
+	} else {
+		c.Bad(rule, inst, "", "", "a codec or hash function of the wire types uses package-level state ("+strings.Join(bad, ", ")+"): what a value encodes to then depends on what was encoded before it in the process (a memo keyed by less than the value hands back another value's bytes), so encode/decode does not round-trip and fixed values do not keep their bytes", nil)
+	}
 }
 
 // ruleVerifierBoundBeforeValidation (C12-R6): the payload provider a signed header is verified
